@@ -385,10 +385,10 @@ def run(R):
               "conventions with the same seed. Non-trivial (a) = some rule has >= 2 tied winners; (b) every instance.")
     R.assumptions = ["random draws are observed by seeding numpy and wrapping numpy.random.choice; no frequency statistics"]
     items = []
-    cnt = 400 if R.thorough else 70
+    cnt = 500 if R.thorough else 130
     for t in range(cnt):
-        m = R.rng.choice([2, 3, 3, 4, 5, 6])
-        n = R.rng.choice([1, 2, 3, 4, 6, 9])
+        m = R.rng.choice([2, 3, 4, 4, 5, 6, 7, 8])
+        n = R.rng.choice([1, 2, 3, 4, 6, 8, 9])
         P = V.structured_profile(R.rng, n, m) if R.rng.random() < 0.6 else V.rand_profile(R.rng, n, m)
         items.append({"P": P, "m": m, "vals": consistent_vals(R.rng, P, m), "k": R.rng.randint(1, m), "lam": R.rng.randint(1, m),
                       "seed": R.rng.randrange(10 ** 6)})
